@@ -110,8 +110,29 @@ pub fn explore<M: Model>(
                 let mut out = Vec::with_capacity(ops.len());
                 for op in ops {
                     let mut st = rebuild(m, h);
-                    let step = m.apply(&mut st, &op, true);
-                    let key = if step.violations.is_empty() { Some(m.key(&st)) } else { None };
+                    // a panic of the subject inside a step is an outcome (and a violation), never a
+                    // crash of the explorer
+                    let opname_for_panic = m.op_name(&op);
+                    let step = match std::panic::catch_unwind(std::panic::AssertUnwindSafe(|| m.apply(&mut st, &op, true))) {
+                        Ok(s) => s,
+                        Err(e) => {
+                            let msg = if let Some(s) = e.downcast_ref::<&str>() { s.to_string() } else if let Some(s) = e.downcast_ref::<String>() { s.clone() } else { "panic".to_string() };
+                            Step { violations: vec![(format!("panic:{opname_for_panic}"), format!("the implementation panicked: {msg}"))], outcome: "panic".into() }
+                        }
+                    };
+                    let key = if step.violations.is_empty() {
+                        match std::panic::catch_unwind(std::panic::AssertUnwindSafe(|| m.key(&st))) {
+                            Ok(k) => Some(k),
+                            Err(_) => None,
+                        }
+                    } else {
+                        None
+                    };
+                    let step = if step.violations.is_empty() && key.is_none() {
+                        Step { violations: vec![(format!("panic:{opname_for_panic}"), "the implementation panicked while its state was read".to_string())], outcome: "panic".into() }
+                    } else {
+                        step
+                    };
                     let mut hist = h.clone();
                     let opname = m.op_name(&op);
                     hist.push(op);
